@@ -866,4 +866,45 @@ theorem copy_spec (cat : Nat → Nat → Bool) (c : Class) :
 example : (Class.minus { ranges := [(97, 99)], building := true, ascii := some (1, 2) } (.leaf { cats := [(1, true)] })).copy =
     .minus { ranges := [(97, 99)] } (.leaf { cats := [(1, true)] }) := by decide
 
+/-- **Every written class meets the structural hypotheses of the query theorems**: parsed as `scanCharSet`
+does (no IgnoreCase, nested subtraction, items with non-empty ranges and the source's POSIX tables) it has
+sorted range lists on every level, no (hence no untruthful) bitmap — `MayOverlap` runs while the tree is
+reduced, before `prepareASCIIBitmap` — and its membership is set algebra over its parts. -/
+theorem parsed_class_wellformed (cat : Nat → Nat → Bool) (a : Ast) (hok : ∀ it ∈ a.items, it.Wf ∧ it.Ok) :
+    Class.RangesOk (strip (Ast.parse cat a)) ∧ BitmapOk cat (strip (Ast.parse cat a)) ∧
+      ∀ ch, ch ≤ maxRune → memAlg cat (strip (Ast.parse cat a)) ch = Ast.mem cat a ch := by
+  have hr : Class.RangesOk (Ast.parse cat a) ∧ ∀ ch, ch ≤ maxRune → memAlg cat (Ast.parse cat a) ch = Ast.mem cat a ch := by
+    induction a with
+    | leaf neg items =>
+      have h1 : ∀ it ∈ items, it.Wf ∧ it.Ok := fun it hit => hok it hit
+      exact ⟨(build_canonical cat neg items false h1).2, fun ch hch => build_mem cat neg items false (fun it hit => (h1 it hit).2) ch hch⟩
+    | minus neg items sub ih =>
+      have h1 : ∀ it ∈ items, it.Wf ∧ it.Ok := fun it hit => hok it (List.mem_append_left _ hit)
+      obtain ⟨ih1, ih2⟩ := ih (fun it hit => hok it (List.mem_append_right _ hit))
+      refine ⟨⟨(build_canonical cat neg items true h1).2, ih1⟩, fun ch hch => ?_⟩
+      simp only [Ast.parse, memAlg, Ast.mem, ih2 ch hch, build_mem cat neg items true (fun it hit => (h1 it hit).2) ch hch]
+  exact ⟨rangesOk_strip _ hr.1, bitmapOk_strip cat _, fun ch hch => by rw [memAlg_strip, hr.2 ch hch]⟩
+
+/-- **End to end for written classes: two class expressions for which `MayOverlap` of their parsed forms is
+`false` have no rune in common — in the set algebra of their written parts.**  No hypothesis about the
+`CharSet`s is left; what remains are the facts about the category oracle and the regenerated tables. -/
+theorem mayOverlap_sound_parsed (cat : Nat → Nat → Bool) (k : Consts) (hk : OracleFacts cat k) (ht : TableFacts k)
+    (a b : Ast) (hoka : ∀ it ∈ a.items, it.Wf ∧ it.Ok) (hokb : ∀ it ∈ b.items, it.Wf ∧ it.Ok)
+    (h : mayOverlap cat k (strip (Ast.parse cat a)) (strip (Ast.parse cat b)) = false) (r : Nat) (hr : r ≤ maxRune) :
+    ¬ (Ast.mem cat a r = true ∧ Ast.mem cat b r = true) := by
+  obtain ⟨a1, a2, a3⟩ := parsed_class_wellformed cat a hoka
+  obtain ⟨b1, b2, b3⟩ := parsed_class_wellformed cat b hokb
+  rw [← a3 r hr, ← b3 r hr]
+  exact mayOverlap_sound cat k hk ht _ _ a1 a2 b1 b2 h r hr
+
+/-- `[a-fx]` and `[g-z-[x]]` are declared disjoint (enumeration of the first inside the second) -/
+example :
+    let a : Ast := .leaf false [.range 97 102, .range 120 120]
+    let b : Ast := .minus false [.range 103 122] (.leaf false [.range 120 120])
+    (∀ it ∈ a.items, it.Wf ∧ it.Ok) ∧ (∀ it ∈ b.items, it.Wf ∧ it.Ok) ∧
+    mayOverlap toyCat (srcConsts 0 1 2) (strip (Ast.parse toyCat a)) (strip (Ast.parse toyCat b)) = false := by
+  refine ⟨?_, ?_, by decide⟩
+  · intro it hit; simp [Ast.items] at hit; rcases hit with rfl | rfl <;> simp [Item.Wf, Item.Ok]
+  · intro it hit; simp [Ast.items] at hit; rcases hit with rfl | rfl <;> simp [Item.Wf, Item.Ok]
+
 end RegexVerif.Props.C16
